@@ -11,6 +11,36 @@ sys.path.insert(0, HERE)
 
 # id -> (technique, level text, level note, design ref)
 CLAIMS = {
+    "C01": (
+        "Result-flow placement analysis (reaching definitions + interprocedural summaries) against a reviewed table of 218 placement facts; typestate rules for renameable temporaries; must-go-through _compile_branch",
+        "Decides the placement discipline of the statement-lifting transformation for all programs at once: for every compile function, the statements and the value of every sub-form slot reach exactly the reviewed fields of the emitted AST (nothing hoisted out of its branch, swapped, duplicated into another field or lost); ordered bodies go through _compile_branch; only the reviewed sites expose temporaries to setv's rename optimisation; setv evaluates value before target. It decides where code is placed, not the values a concrete program computes.",
+        "The table is reviewed against docs/semantics.rst and docs/api.rst; Python's own semantics of If/While/Try/With/Match fields is trusted. A behaviour-preserving refactoring that changes node classes or fields would have to update the table.",
+        "3, 4/C01",
+    ),
+    "C02": (
+        "placement analysis of the and/or compile function + polarity table folding + typestate of the BoolOp-append flag + three-way nullary table agreement with hy.pyops",
+        "Decides the structural necessary conditions of short-circuit evaluation: first operand unconditional, later statement-bearing operands inside an If on the temporary (negated exactly for `or`) and nested inside each other, values appended left to right, value of a statement operand stored unconditionally, append only under the creation flag, nullary constants agreeing with hy.pyops and its docs. Truth tables themselves are Python's BoolOp/If semantics.",
+        "Several sub-rules compare normalised statements of this one function; a rewrite of the function needs the rules revisited (reported then as violation of the named sub-rule, with the expected shape).",
+        "4/C02",
+    ),
+    "C08": (
+        "grammar/handler exhaustiveness and shadowing-order analysis of compile_pattern, placement analysis of compile_match_expression, binding-registration rule",
+        "Decides that each of the pattern grammar's alternatives has an arm, that more specific arms precede more general ones, that each arm builds the node its alternative denotes, that the chain ends in a syntax error; that the result variable is set to None unconditionally before the Match and assigned at the end of every case; lifted guards precede the Match; captures are validated, mangled and registered with the scope; match does not expose its result variable for renaming. Which case a subject selects is Python's match semantics.",
+        "The arm table is keyed by the tests compile_pattern uses today.",
+        "4/C08",
+    ),
+    "C09": (
+        "placement analysis of try/with against the reviewed table + per-clause result-variable rules + scope-per-handler rule + R-VAL for with",
+        "Decides for every raise point at once which clause's code is in which Try field (else folded into the body only without handlers; result variable assigned in body-iff-no-else, each handler, else, never finally), that each except clause has its own ScopeLet with a fresh reserved variable, except/except* exclusivity, that with initialises its temporary before the With, stores the body value on every arm including the nested ones, and withholds the temporary from renaming. Which clauses run for a given exception is Python's Try/With semantics.",
+        "Known finding recorded: statements of an except type expression are hoisted before the try.",
+        "4/C09",
+    ),
+    "C11": (
+        "linearity analysis of compiler Results (every Result produced is consumed) via reaching definitions, anonymous-projection rule, slot-usage rule, exhaustiveness of the #** arm, argument-list conservation in compile_expression",
+        "Decides over all ~100 Result-producing call sites that no compiled sub-form's statements are dropped (no `.expr/.force_expr` projection of a discarded Result, every bound Result has a consuming use), that every pattern slot is read, that `#**` is appended or rejected under every flag combination, and that compile_expression passes its whole argument list on. Whether control reaches a sub-form at run time is not decided.",
+        "Known finding recorded: statements in the bound of a :tp type parameter are dropped (digest_type_params).",
+        "4/C11",
+    ),
     "C10": (
         "AST well-formedness obligations at every node construction site (grammar from the interpreter's ast docstrings + frozen validator table) with reaching definitions; exception-funnel handler analysis",
         "Decides, over all ~180 AST construction sites of the compiler, the necessary conditions for Python's compile() to accept the result: every required field supplied (O0), no required expression field fed from a possibly-None Result.expr (O1), statement lists the validator requires non-empty are provably non-empty (O2), names from user symbols pass the constant-name guard and assignment targets have an accepted kind (O3); and that errors leave only as HyLanguageError subclasses (handler order in HyASTCompiler.compile, NoParseError conversion, MacroExceptions). Decides these site obligations, not validity of every concrete output.",
